@@ -218,12 +218,14 @@ impl Recorder {
                                   &json!({"pool":{},"tick":{},"ta":{},"pos":{},"tok":{},"mint":{},"oracle":{},"cfg":{},"tier":{},"atier":{},"badge":{},"ext":{},"bundle":{},"lock":{},"other":{}}));
         let mut tag = tag;
         let twohop = tag.get("twohop").cloned().unwrap_or(json!({"present": false}));
+        let pack = tag.get("pack").cloned().unwrap_or(json!({"present": false}));
         if let Some(o) = tag.as_object_mut() {
             o.remove("preDiff");
             o.remove("twohop");
+            o.remove("pack");
         }
         let ev = json!({
-            "twohop": twohop, "probe": probe, "hasPreDiff": pre_diff.is_some(), "preDiff": pre_diff.unwrap_or(empty),
+            "twohop": twohop, "pack": pack, "probe": probe, "hasPreDiff": pre_diff.is_some(), "preDiff": pre_diff.unwrap_or(empty),
             "k": "ix", "name": ix.name, "args": ix.args, "slots": w.slots_json(ix),
             "ok": ex.ok(), "err": nu(ex.code as u128), "panic": ex.panic.is_some(), "rtv": ex.runtime_violation.is_some(),
             "must": must, "now": nu(w.now as u128), "epoch": nu(crate::svm::epoch() as u128), "tag": tag,
